@@ -1,9 +1,84 @@
-(* C15 - data-model diagrams contain every type, field and relationship. Statements only; proofs by `exact`. *)
-From Coq Require Import List.
+(* C15 - data-model diagrams contain every type, field and relationship. Statements only; proofs by `exact`.
+   `draw` is the model of the CURRENT pkg/datamodeldiagram/datamodelview.go (DmModel.draw_with applied to the
+   shape table regenerated from the source); spec_block / rel_line / tuple_line / rel_parts / tuple_parts are
+   state-independent descriptions of one type's lines and of the references the code resolves (DmProps.v). *)
+From Coq Require Import List PArith Bool.
 Import ListNotations.
-Require Import Verif.DataModel.DmShapeTypes Verif.DataModel.DmModel Verif.DataModel.DmCurrent Verif.Gen.DmShape.
+Require Import Verif.DataModel.DmShapeTypes Verif.DataModel.DmModel Verif.DataModel.DmCurrent
+               Verif.DataModel.DmProps Verif.Gen.DmShape.
 
-(* the shape of the CURRENT datamodelview.go (regenerated table) is the one the theorems are about *)
+(* obligation against the source: alias allocation, reference counting and dispatch are as the theorems assume *)
 Theorem C15_shape_current : shape_of_source = fixed_shape.
 Proof. exact shape_current. Qed.
 Print Assumptions C15_shape_current.
+
+(* classes and fields, full: the output is, for every covered type in order, exactly its class header, one line per
+   field and the closing brace, followed by relationship lines only - no other class, no other field line *)
+Theorem C15_dm_blocks_exact : forall filt es o, draw filt es = Ok o ->
+  exists sy r ar, o = flat_map (spec_block sy) (drawn filt (type_map es)) ++ draw_relationship r ar.
+Proof. exact dm_blocks_exact. Qed.
+Print Assumptions C15_dm_blocks_exact.
+
+(* classes, partial: tables, tuples and enums with different App.Type names are declared under different aliases *)
+Theorem C15_dm_classes_exact_partial : forall filt es o, draw filt es = Ok o ->
+  exists sy r ar, o = flat_map (spec_block sy) (drawn filt (type_map es)) ++ draw_relationship r ar /\
+    forall e1 e2, In e1 (drawn filt (type_map es)) -> In e2 (drawn filt (type_map es)) ->
+      is_drawn e1 = true -> is_drawn e2 = true ->
+      (match e_def e1 with DPrim _ => False | _ => True end) -> (match e_def e2 with DPrim _ => False | _ => True end) ->
+      no_eps (e_key e1) -> no_eps (e_key e2) -> e_key e1 <> e_key e2 ->
+      idx sy (class_key e1) <> idx sy (class_key e2).
+Proof. exact dm_classes_exact_partial. Qed.
+Print Assumptions C15_dm_classes_exact_partial.
+
+(* classes, refuted in full: two primitive aliases with one short name share an alias *)
+Theorem C15_dm_classes_exact_refuted : exists es o a n1 n2 h1 h2,
+  draw None es = Ok o /\ In (IClass a n1 h1) o /\ In (IClass a n2 h2) o /\ n1 <> n2.
+Proof. exact dm_classes_exact_refuted. Qed.
+Print Assumptions C15_dm_classes_exact_refuted.
+
+(* fields, refuted in full: a collection-typed table column is listed as no_primitive (tuple fields: see
+   ref_label_names_path, prim_label; every tuple field with a type and every table column has its line by
+   C15_dm_blocks_exact) *)
+Theorem C15_dm_fields_exact_refuted : exists es o f,
+  draw None es = Ok o /\
+  In {| e_app := 2%positive; e_name := [4%positive]; e_def := DRel [(f, FSet (EPrim 4))] |} es /\ In (IField f (LPrim 0)) o.
+Proof. exact dm_fields_exact_refuted. Qed.
+Print Assumptions C15_dm_fields_exact_refuted.
+
+Theorem C15_tuple_ref_label : forall r, lab (ERef r) = LN (join (r_path r)) \/ exists a, lab (ERef r) = LN (a :: join (r_path r)).
+Proof. exact ref_label_names_path. Qed.
+Print Assumptions C15_tuple_ref_label.
+
+(* relationships, partial: between any two allocated symbols the number of lines is the number of references the
+   code resolves to that pair - every further reference to one target is one further line, none is extra *)
+Theorem C15_dm_edges_exact_partial : forall filt es o, draw filt es = Ok o ->
+  exists sy, let tm := type_map es in let D := drawn filt tm in let P := flat_map (entity_contrib tm (ignored es)) D in
+    (forall e, In e D -> is_drawn e = true -> In (class_key e) sy) /\
+    (forall p, In p P -> In (fst p) sy /\ In (snd p) sy) /\
+    forall kx ky, In kx sy -> In ky sy ->
+      count_edges o (idx sy kx) (idx sy ky) = length (filter (fun p => str_eqb (fst p) kx && str_eqb (snd p) ky) P).
+Proof. exact dm_edges_exact_partial. Qed.
+Print Assumptions C15_dm_edges_exact_partial.
+
+(* ... and that resolution is the plain one for one-element paths *)
+Theorem C15_resolution_plain : forall tm ign r p0, r_path r = [p0] ->
+  mem_str (join [p0]) ign = false -> has_type tm p0 = false ->
+  tuple_parts tm ign (FRef r) =
+    let app := match r_app r with Some a => a | None => r_ctx r end in
+    if has_type tm (app :: p0) then Some [[app]; p0] else None.
+Proof. exact tuple_parts_plain. Qed.
+Print Assumptions C15_resolution_plain.
+
+(* relationships, refuted in full: nested names; references to primitive aliases *)
+Theorem C15_dm_edges_exact_refuted : exists es o a n,
+  draw None es = Ok o /\ In (IClass a (2%positive :: n) HClass) o /\
+  In {| e_app := 2%positive; e_name := [4%positive];
+        e_def := DTuple [(1%positive, FRef {| r_ctx := 2%positive; r_app := None; r_path := [[4%positive]; [5%positive]] |})] |} es /\
+  n = join [[4%positive]; [5%positive]] /\ forall x y, count_edges o x y = 0.
+Proof. exact dm_edges_exact_refuted. Qed.
+Print Assumptions C15_dm_edges_exact_refuted.
+
+Theorem C15_dm_edges_prim_alias_refuted : exists es o a b c ar,
+  draw None es = Ok o /\ In (IEdge a b c ar) o /\ forall n h, ~ In (IClass b n h) o.
+Proof. exact dm_edges_prim_alias_refuted. Qed.
+Print Assumptions C15_dm_edges_prim_alias_refuted.
